@@ -17,19 +17,30 @@ instance decMono : (k : Nat) → (ops : List Op) → Decidable (Mono k ops)
   | _, .rcvd _ x :: rest => @instDecidableAnd _ _ _ (decMono x rest)
   | _, .health x :: rest => @instDecidableAnd _ _ _ (decMono x rest)
 
-/-- time of an EFFECTIVE sent / received packet (the ops that assign `last_effective_comm`) -/
+/-- time of an effective RECEIVED packet (always restarts the idle period) -/
 def Op.effTime : Op → Option Nat
-  | .sent true x => some x
   | .rcvd true x => some x
   | _ => none
 
-def effStep (acc : Option Nat) (op : Op) : Option Nat :=
-  match op.effTime with
-  | some x => some x
-  | none => acc
+/-- an effective packet, sent or received -/
+def Op.isEff : Op → Bool
+  | .sent true _ => true
+  | .rcvd true _ => true
+  | _ => false
 
-/-- time of the LAST effective sent / received packet of a history -/
-def lastEff (ops : List Op) : Option Nat := ops.foldl effStep none
+/-- History-level RFC 9000 §10.1 bookkeeping: (time of the last restart of the idle period, "an effective packet
+has been sent since the last receive").  An effective receive restarts; an effective send restarts only if it
+is the first one since the last received packet. -/
+def rstStep (acc : Option Nat × Bool) : Op → Option Nat × Bool
+  | .sent true x => if acc.2 then acc else (some x, true)
+  | .rcvd true x => (some x, false)
+  | .rcvd false _ => (acc.1, false)
+  | _ => acc
+
+def restart (ops : List Op) : Option Nat × Bool := ops.foldl rstStep (none, false)
+
+/-- time of the LAST restart event of a history -/
+def lastEff (ops : List Op) : Option Nat := (restart ops).1
 
 /-- the clock after a history that started at clock `k` -/
 def clockStep (k : Nat) (op : Op) : Nat := op.time.getD k
@@ -53,76 +64,113 @@ theorem mono_append_left {a b : List Op} : ∀ {k : Nat}, Mono k (a ++ b) → Mo
 
 theorem effTime_time {op : Op} {x : Nat} (h : op.effTime = some x) : op.time = some x := by
   cases op with
-  | sent e y => cases e <;> simp_all [Op.effTime, Op.time]
+  | sent e y => simp [Op.effTime] at h
   | rcvd e y => cases e <;> simp_all [Op.effTime, Op.time]
   | health y => simp [Op.effTime] at h
   | negotiate r => simp [Op.effTime] at h
 
 theorem lastEff_nil : lastEff [] = none := rfl
 
-theorem lastEff_snoc (ops : List Op) (op : Op) : lastEff (ops ++ [op]) = effStep (lastEff ops) op := by
-  simp [lastEff, List.foldl_append]
+theorem restart_snoc (ops : List Op) (op : Op) : restart (ops ++ [op]) = rstStep (restart ops) op := by
+  simp [restart, List.foldl_append]
 
-private theorem foldl_effStep_none_iff (ops : List Op) : ∀ acc : Option Nat,
-    ops.foldl effStep acc = none ↔ acc = none ∧ ∀ op ∈ ops, op.effTime = none := by
+theorem lastEff_snoc (ops : List Op) (op : Op) : lastEff (ops ++ [op]) = (rstStep (restart ops) op).1 := by
+  simp [lastEff, restart_snoc]
+
+private theorem foldl_rst_none_iff (ops : List Op) : ∀ acc : Option Nat × Bool, (acc.2 = true → acc.1.isSome = true) →
+    ((ops.foldl rstStep acc).1 = none ↔ acc.1 = none ∧ ∀ op ∈ ops, op.isEff = false) := by
   induction ops with
-  | nil => intro acc; simp
+  | nil => intro acc _; simp
   | cons op ops ih =>
-    intro acc
+    intro acc ha
     rw [List.foldl_cons, ih]
-    unfold effStep
-    cases h : op.effTime <;> simp [h]
+    · cases op with
+      | sent e x =>
+        cases e
+        · simp [rstStep, Op.isEff]
+        · by_cases hf : acc.2 = true
+          · have := ha hf
+            cases h1 : acc.1 <;> simp_all [rstStep, Op.isEff]
+          · simp [rstStep, Op.isEff, hf]
+      | rcvd e x => cases e <;> simp [rstStep, Op.isEff]
+      | health x => simp [rstStep, Op.isEff]
+      | negotiate r => simp [rstStep, Op.isEff]
+    · cases op with
+      | sent e x =>
+        cases e
+        · simpa [rstStep] using ha
+        · by_cases hf : acc.2 = true <;> simp_all [rstStep]
+      | rcvd e x => cases e <;> simp [rstStep]
+      | health x => simpa [rstStep] using ha
+      | negotiate r => simpa [rstStep] using ha
 
 /-- `lastEff` is `none` exactly when the history contains no effective sent / received packet. -/
-theorem lastEff_eq_none_iff (ops : List Op) : lastEff ops = none ↔ ∀ op ∈ ops, op.effTime = none := by
-  simp [lastEff, foldl_effStep_none_iff]
+theorem lastEff_eq_none_iff (ops : List Op) : lastEff ops = none ↔ ∀ op ∈ ops, op.isEff = false := by
+  simp [lastEff, restart, foldl_rst_none_iff]
 
-private theorem foldl_effStep_some (ops : List Op) : ∀ (acc : Option Nat) (c0 : Nat),
-    ops.foldl effStep acc = some c0 → acc = some c0 ∨ ∃ op ∈ ops, op.effTime = some c0 := by
+private theorem foldl_rst_some (ops : List Op) : ∀ (acc : Option Nat × Bool) (c0 : Nat),
+    (ops.foldl rstStep acc).1 = some c0 → acc.1 = some c0 ∨ ∃ op ∈ ops, op.isEff = true ∧ op.time = some c0 := by
   induction ops with
   | nil => intro acc c0 h; exact Or.inl h
   | cons op ops ih =>
     intro acc c0 h
     rw [List.foldl_cons] at h
     rcases ih _ _ h with h1 | ⟨o, ho, he⟩
-    · unfold effStep at h1
-      cases hop : op.effTime with
-      | none => rw [hop] at h1; exact Or.inl h1
-      | some y =>
-        rw [hop] at h1
-        exact Or.inr ⟨op, List.mem_cons_self, by rw [hop]; simpa using h1⟩
+    · cases op with
+      | sent e x =>
+        cases e
+        · exact Or.inl h1
+        · simp only [rstStep] at h1
+          by_cases hf : acc.2 = true
+          · simp [hf] at h1; exact Or.inl h1
+          · simp [hf] at h1; exact Or.inr ⟨_, List.mem_cons_self, rfl, by simp [Op.time, h1]⟩
+      | rcvd e x =>
+        cases e
+        · exact Or.inl h1
+        · simp only [rstStep] at h1; exact Or.inr ⟨_, List.mem_cons_self, rfl, by simpa [Op.time] using h1⟩
+      | health x => exact Or.inl h1
+      | negotiate r => exact Or.inl h1
     · exact Or.inr ⟨o, List.mem_cons_of_mem _ ho, he⟩
 
-/-- `lastEff` really is the time of some effective op of the history. -/
+/-- `lastEff` really is the time of some effective (sent or received) op of the history. -/
 theorem lastEff_mem {ops : List Op} {c0 : Nat} (h : lastEff ops = some c0) :
-    ∃ op ∈ ops, op.effTime = some c0 := by
-  rcases foldl_effStep_some ops none c0 h with h | h
+    ∃ op ∈ ops, op.isEff = true ∧ op.time = some c0 := by
+  rcases foldl_rst_some ops (none, false) c0 h with h | h
   · cases h
   · exact h
 
-/-! ### the timer tracks `lastEff` (no hypothesis on times) -/
+/-! ### the timer tracks the §10.1 restart state (no hypothesis on times) -/
 
-theorem step_lastComm (tm : Timer) (op : Op) : (step tm op).1.lastComm = effStep tm.lastComm op := by
+theorem step_restart (tm : Timer) (op : Op) :
+    ((step tm op).1.lastComm, (step tm op).1.sentSinceRcvd) = rstStep (tm.lastComm, tm.sentSinceRcvd) op := by
   cases op with
-  | sent e x => cases e <;> simp [step, onSent, effStep, Op.effTime]
+  | sent e x =>
+    cases e
+    · simp [step, onSent, rstStep]
+    · by_cases hf : tm.sentSinceRcvd = true <;> simp [step, onSent, rstStep, hf]
   | rcvd e x =>
-    cases e <;> by_cases hb : tm.idleBegin.isSome <;> simp [step, onRcvd, effStep, Op.effTime, hb]
+    cases e <;> by_cases hb : tm.idleBegin.isSome <;> simp [step, onRcvd, rstStep, hb]
   | health x =>
-    simp only [step, health, effStep, Op.effTime]
+    simp only [step, health, rstStep]
     split <;> (try split) <;> (try split) <;> simp_all
-  | negotiate r => simp [step, effStep, Op.effTime]
+  | negotiate r => simp [step, rstStep]
 
-theorem run_lastComm (ops : List Op) : ∀ tm : Timer,
-    (run tm ops).lastComm = ops.foldl effStep tm.lastComm := by
+theorem run_restart (ops : List Op) : ∀ tm : Timer,
+    ((run tm ops).lastComm, (run tm ops).sentSinceRcvd) = ops.foldl rstStep (tm.lastComm, tm.sentSinceRcvd) := by
   induction ops with
   | nil => intro tm; rfl
   | cons op ops ih =>
     intro tm
-    show (run (step tm op).1 ops).lastComm = _
-    rw [ih, step_lastComm, List.foldl_cons]
+    show ((run (step tm op).1 ops).lastComm, (run (step tm op).1 ops).sentSinceRcvd) = _
+    rw [ih, step_restart, List.foldl_cons]
 
-theorem run_init_lastComm (c : Cfg) (ops : List Op) : (run { cfg := c } ops).lastComm = lastEff ops :=
-  run_lastComm ops _
+theorem run_init_lastComm (c : Cfg) (ops : List Op) : (run { cfg := c } ops).lastComm = lastEff ops := by
+  have := run_restart ops { cfg := c }
+  exact congrArg Prod.fst this
+
+theorem run_init_flag (c : Cfg) (ops : List Op) : (run { cfg := c } ops).sentSinceRcvd = (restart ops).2 := by
+  have := run_restart ops { cfg := c }
+  exact congrArg Prod.snd this
 
 /-! ### idle only begins after some effective communication (no hypothesis on times) -/
 
@@ -131,7 +179,10 @@ def IdleHasComm (tm : Timer) : Prop := tm.idleBegin.isSome → tm.lastComm.isSom
 theorem step_idleHasComm (tm : Timer) (op : Op) (h : IdleHasComm tm) : IdleHasComm (step tm op).1 := by
   unfold IdleHasComm at *
   cases op with
-  | sent e x => cases e <;> simp_all [step, onSent]
+  | sent e x =>
+    cases e
+    · simp_all [step, onSent]
+    · by_cases hf : tm.sentSinceRcvd = true <;> simp_all [step, onSent]
   | rcvd e x =>
     cases e <;> by_cases hb : tm.idleBegin.isSome <;> simp_all [step, onRcvd]
   | health x =>
@@ -226,5 +277,172 @@ theorem health_timeout {tm : Timer} {t : Nat} (h : (health tm t).2 = .timeout) :
       · simp
   simp only [health] at h
   grind
+
+/-! ### send-only tails (for `idle_eventually_despite_sending`) -/
+
+/-- ops of a send-only tail: packets sent (effective or not) and `health` polls — nothing received -/
+def Op.sendOrPoll : Op → Bool
+  | .sent _ _ => true
+  | .health _ => true
+  | _ => false
+
+def clockAfter (k : Nat) (ops : List Op) : Nat := ops.foldl clockStep k
+
+theorem mono_append_right : ∀ {a b : List Op} {k : Nat}, Mono k (a ++ b) → Mono (clockAfter k a) b := by
+  intro a
+  induction a with
+  | nil => intro b k h; exact h
+  | cons op a ih =>
+    intro b k h
+    rw [List.cons_append, mono_cons] at h
+    exact ih h.2
+
+theorem clockAfter_snoc_health (k t : Nat) (a : List Op) : clockAfter k (a ++ [.health t]) = t := by
+  simp [clockAfter, List.foldl_append, clockStep, Op.time]
+
+/-- an op admissible in a tail: send or poll, and — unless the flag `sent_since_rcvd` is known to be set
+(`fl = true`) — not an effective send -/
+def TailOp (fl : Bool) (op : Op) : Prop := op.sendOrPoll = true ∧ (fl = true ∨ op.isEff = false)
+
+/-- the state of a timer during a send-only tail that began after `c0 + defer` -/
+def Tail (fl : Bool) (cfg0 : Cfg) (c0 : Nat) (tm : Timer) (k : Nat) : Prop :=
+  tm.cfg = cfg0 ∧ (fl = true → tm.sentSinceRcvd = true) ∧ tm.lastComm = some c0 ∧ c0 + cfg0.defer < k ∧
+    ∀ x, tm.idleBegin = some x → x ≤ k
+
+theorem sent_noop {fl : Bool} {tm : Timer} (hf : fl = true → tm.sentSinceRcvd = true) (e : Bool) (x : Nat)
+    (hop : TailOp fl (.sent e x)) : (step tm (.sent e x)).1 = tm := by
+  cases e
+  · simp [step, onSent]
+  · rcases hop.2 with h | h
+    · simp [step, onSent, hf h]
+    · simp [Op.isEff] at h
+
+theorem tail_step {fl : Bool} {cfg0 : Cfg} {c0 : Nat} {tm : Timer} {k : Nat} (h : Tail fl cfg0 c0 tm k)
+    (op : Op) (hop : TailOp fl op) (hk : ∀ x, op.time = some x → k ≤ x) :
+    Tail fl cfg0 c0 (step tm op).1 (clockStep k op) := by
+  obtain ⟨h1, h2, h3, h4, h5⟩ := h
+  cases op with
+  | sent e x =>
+    have hx := hk x rfl
+    rw [sent_noop h2 e x hop]
+    exact ⟨h1, h2, h3, by simp [clockStep, Op.time]; omega,
+      fun y hy => by have := h5 y hy; simp [clockStep, Op.time]; omega⟩
+  | health x =>
+    have hx := hk x rfl
+    have he : x - c0 > tm.cfg.defer := by rw [h1]; omega
+    cases hi : tm.idleBegin with
+    | none =>
+      have : (step tm (.health x)).1 = { tm with idleBegin := some x } := by simp [step, health, h3, he, hi]
+      rw [this]
+      exact ⟨h1, h2, h3, by simp [clockStep, Op.time]; omega, by simp [clockStep, Op.time]⟩
+    | some b =>
+      have : (step tm (.health x)).1 = tm := by simp [step, health, h3, he, hi]
+      rw [this]
+      exact ⟨h1, h2, h3, by simp [clockStep, Op.time]; omega,
+        fun y hy => by have := h5 y hy; simp [clockStep, Op.time]; omega⟩
+  | rcvd e x => have := hop.1; simp [Op.sendOrPoll] at this
+  | negotiate r => have := hop.1; simp [Op.sendOrPoll] at this
+
+theorem tail_run {fl : Bool} {cfg0 : Cfg} {c0 : Nat} (ops : List Op) : ∀ {tm : Timer} {k : Nat},
+    Tail fl cfg0 c0 tm k → (∀ op ∈ ops, TailOp fl op) → Mono k ops →
+    Tail fl cfg0 c0 (run tm ops) (clockAfter k ops) := by
+  induction ops with
+  | nil => intro tm k h _ _; exact h
+  | cons op ops ih =>
+    intro tm k h hs hm
+    rw [mono_cons] at hm
+    exact ih (tail_step h op (hs op List.mem_cons_self) hm.1) (fun o ho => hs o (List.mem_cons_of_mem _ ho)) hm.2
+
+/-- once idle has begun, a send-only tail changes nothing at all -/
+theorem tail_const {fl : Bool} (tm : Timer) (c0 b : Nat) (hf : fl = true → tm.sentSinceRcvd = true)
+    (hc : tm.lastComm = some c0) (hi : tm.idleBegin = some b) (ops : List Op) : ∀ (k : Nat),
+    c0 + tm.cfg.defer < k → (∀ op ∈ ops, TailOp fl op) → Mono k ops → run tm ops = tm := by
+  induction ops with
+  | nil => intro _ _ _ _; rfl
+  | cons op ops ih =>
+    intro k hk hs hm
+    rw [mono_cons] at hm
+    have hop := hs op List.mem_cons_self
+    have hstep : (step tm op).1 = tm := by
+      cases op with
+      | sent e x => exact sent_noop hf e x hop
+      | health x =>
+        have hx : k ≤ x := hm.1 x rfl
+        have : x - c0 > tm.cfg.defer := by omega
+        simp [step, health, hc, this, hi]
+      | rcvd e x => have := hop.1; simp [Op.sendOrPoll] at this
+      | negotiate r => have := hop.1; simp [Op.sendOrPoll] at this
+    show run (step tm op).1 ops = tm
+    rw [hstep]
+    have hk' : c0 + tm.cfg.defer < clockStep k op := by
+      cases op with
+      | sent e x => have := hm.1 x rfl; simp [clockStep, Op.time]; omega
+      | health x => have := hm.1 x rfl; simp [clockStep, Op.time]; omega
+      | rcvd e x => have := hop.1; simp [Op.sendOrPoll] at this
+      | negotiate r => have := hop.1; simp [Op.sendOrPoll] at this
+    exact ih _ hk' (fun o ho => hs o (List.mem_cons_of_mem _ ho)) hm.2
+
+theorem despite_core (fl : Bool) (tm : Timer) (c0 t1 t2 : Nat) (a b : List Op)
+    (hf : fl = true → tm.sentSinceRcvd = true) (hc : tm.lastComm = some c0) (h0 : tm.cfg.maxIdle ≠ 0)
+    (ha : ∀ op ∈ a, TailOp fl op) (hb : ∀ op ∈ b, TailOp fl op)
+    (hm : Mono (c0 + tm.cfg.defer + 1) (a ++ [.health t1] ++ b ++ [.health t2]))
+    (hi : ∀ x, tm.idleBegin = some x → x ≤ c0 + tm.cfg.defer + 1)
+    (h2 : t1 + tm.cfg.maxIdle < t2) :
+    (step (run tm (a ++ [.health t1] ++ b)) (.health t2)).2 = .timeout := by
+  have hT : Tail fl tm.cfg c0 tm (c0 + tm.cfg.defer + 1) := ⟨rfl, hf, hc, by omega, hi⟩
+  have hm1 : Mono (c0 + tm.cfg.defer + 1) (a ++ [.health t1]) := mono_append_left (mono_append_left hm)
+  have hs1 : ∀ op ∈ a ++ [.health t1], TailOp fl op := by
+    intro op ho
+    rcases List.mem_append.1 ho with ho | ho
+    · exact ha op ho
+    · simp at ho; subst ho; exact ⟨rfl, Or.inr rfl⟩
+  have hT1 := tail_run (a ++ [.health t1]) hT hs1 hm1
+  rw [clockAfter_snoc_health] at hT1
+  obtain ⟨g1, g2, g3, g4, g5⟩ := hT1
+  have hib : ∃ x, (run tm (a ++ [.health t1])).idleBegin = some x := by
+    have hTa := tail_run a hT ha (mono_append_left hm1)
+    obtain ⟨q1, _, q3, q4, _⟩ := hTa
+    have hk1 : clockAfter (c0 + tm.cfg.defer + 1) a ≤ t1 := by
+      have := mono_append_right hm1
+      simp only [Mono] at this
+      exact this.1
+    have he : t1 - c0 > (run tm a).cfg.defer := by rw [q1]; omega
+    have : run tm (a ++ [.health t1]) = (step (run tm a) (.health t1)).1 := by simp [run, List.foldl_append]
+    rw [this]
+    cases hi' : (run tm a).idleBegin with
+    | none => exact ⟨t1, by simp [step, health, q3, he, hi']⟩
+    | some x => exact ⟨x, by simp [step, health, q3, he, hi']⟩
+  obtain ⟨x, hx⟩ := hib
+  have hxle := g5 x hx
+  have hm2 : Mono t1 (b ++ [.health t2]) := by
+    have : a ++ [.health t1] ++ b ++ [.health t2] = (a ++ [.health t1]) ++ (b ++ [.health t2]) := by simp
+    rw [this] at hm
+    have := mono_append_right hm
+    rwa [clockAfter_snoc_health] at this
+  have hconst : run (run tm (a ++ [.health t1])) b = run tm (a ++ [.health t1]) :=
+    tail_const _ c0 x g2 g3 hx b t1 (by rw [g1]; exact g4) hb (mono_append_left hm2)
+  have hrun : run tm (a ++ [.health t1] ++ b) = run (run tm (a ++ [.health t1])) b := by
+    simp [run, List.foldl_append]
+  rw [hrun, hconst]
+  have hk2 : t1 ≤ t2 := by omega
+  have he2 : t2 - c0 > (run tm (a ++ [.health t1])).cfg.defer := by rw [g1]; omega
+  have h0' : (run tm (a ++ [.health t1])).cfg.maxIdle ≠ 0 := by rw [g1]; exact h0
+  have hlt : t2 - x > (run tm (a ++ [.health t1])).cfg.maxIdle := by rw [g1]; omega
+  simp [step, health, g3, he2, hx, timeoutCheck, h0', hlt]
+
+theorem stepOld_eq_step (t : Timer) (op : Op) (h : op.isEff = false) : stepOld t op = step t op := by
+  cases op with
+  | sent e x => cases e <;> simp_all [stepOld, step, onSent, onSentOld, Op.isEff]
+  | _ => rfl
+
+theorem runOld_eq_run (ops : List Op) : ∀ t : Timer, (∀ op ∈ ops, op.isEff = false) → runOld t ops = run t ops := by
+  induction ops with
+  | nil => intro _ _; rfl
+  | cons op ops ih =>
+    intro t h
+    show runOld (stepOld t op).1 ops = run (step t op).1 ops
+    rw [stepOld_eq_step t op (h op List.mem_cons_self)]
+    exact ih _ (fun o ho => h o (List.mem_cons_of_mem _ ho))
+
 
 end GmQuic.Idle
